@@ -29,10 +29,11 @@ RULE = (
     "cadzow/traj: site grids 1-4 x 4-40 (full rectangle, or staggered like NP1 for the full-rank identity), any trace "
     "order, several spacings; data = random complex spectra (rank full) or k plane waves per frequency with rank "
     "r in [k, k+2]; oracle: output == input within 1e-10 of max|input| when r >= rank of the data, and for r == k "
-    "the Frobenius error to the clean waves over 8 noisy frequencies is smaller than the noise that was added "
-    "(asserted for k <= full/3, measured elsewhere); trajectory(): positions distinct and covering T, trace counts == "
+    "the Frobenius error to the clean waves over 32 noisy frequencies is smaller than the noise that was added "
+    "(asserted for k <= full/4, measured elsewhere); trajectory(): positions distinct and covering T, trace counts == "
     "anti-diagonal lengths, plane wave embeds to a rank-one matrix. derank / svd_denoise_npx: same identities on "
-    "low-rank matrices (rank of the output <= r; per-collection full rank). lp / rolling_window: constant in -> same "
+    "low-rank matrices (rank of the output <= r; per-collection full rank; noise statement summed over 16 noise "
+    "realisations, asserted for full >= 8 and k <= full/4). lp / rolling_window: constant in -> same "
     "constant out (1e-12 relative), length kept for random input. non_uniform_savgol: polynomial of degree <= order "
     "on irregular abscissae reproduced incl. borders within 1e-12 + eps*cond(A)^2 relative (A = local Vandermonde "
     "matrix, the method solves normal equations); smooth_interpolate_savgol: same shape, finite everywhere, constants "
@@ -52,9 +53,10 @@ ASSUMPTIONS = [
     "spike sample arrays are sorted in time (spike trains); unsorted arrays and sorters without any spike are not generated",
     "cadzow plane-wave identities are asserted on full rectangular grids only; staggered (NP1-like) grids are "
     "checked for the full-rank identity only, since a plane wave on a grid with holes is not rank one",
-    "noise reduction is a statistical statement: it is asserted on the Frobenius error summed over 8 noisy "
-    "frequencies (cadzow) / over the whole matrix (derank, svd) and only where the data rank is at most a third of "
-    "the full rank (a quarter for single matrices of size >= 8); the worst measured ratios are reported as margins",
+    "noise reduction is a statistical statement (truncating at the true rank does not reduce every noise realisation "
+    "on tiny matrices): it is asserted on the Frobenius error summed over 32 noisy frequencies (cadzow) / 16 noise "
+    "realisations (derank, svd) and only where the data rank is at most a quarter of the full rank (and full >= 8 "
+    "for derank/svd); elsewhere the ratio is only measured; the worst ratios are reported as margins",
     "stack on integer data is exercised with np.sum only (the result array takes the dtype of the data, so means of "
     "integers are truncated by design of the function)",
     "non_uniform_savgol / smooth_interpolate_savgol with exactly `window` valid samples must either work or raise "
@@ -70,7 +72,8 @@ ID_TOL = 1e-10          # identity tolerance relative to max |input| (float64)
 WINDOWS = ["flat", "hanning", "hamming", "bartlett", "blackman"]
 FNS = (["cadzow"] * 12 + ["traj"] * 3 + ["derank"] * 12 + ["svd"] * 12 + ["lp"] * 8 + ["rolling"] * 8
        + ["savgol"] * 13 + ["savgol_interp"] * 8 + ["venn"] * 14 + ["stack"] * 10)
-NOISE_NF = 8            # number of noisy frequencies the cadzow noise statement is aggregated over
+NOISE_NF = 32           # number of noisy frequencies the cadzow noise statement is aggregated over
+NOISE_REP = 16          # number of noise realisations the derank / svd noise statement is aggregated over
 
 
 # ------------------------------------------------------------------------------------------------
@@ -171,7 +174,7 @@ def _st_rolling(draw):
 def _st_savgol(draw):
     w = 2 * draw(st.integers(0, 10)) + 1
     o = draw(st.integers(0, min(4, w - 1)))
-    extra = 0 if draw(st.integers(0, 9)) == 0 else draw(st.one_of(st.integers(1, 60), st.integers(1, 3)))
+    extra = 0 if draw(st.sampled_from(range(16))) == 7 else draw(st.one_of(st.integers(1, 60), st.integers(1, 3)))
     return {"fn": "savgol", "w": w, "o": o, "d": draw(st.integers(0, o)), "n": w + extra,
             "spacing": draw(st.sampled_from(["uniform", "random", "random", "cluster", "gaps"])),
             "x0": draw(st.sampled_from([0.0, 1000.0, -50.0, 1e6])), "seed": draw(_seed)}
@@ -181,12 +184,12 @@ def _st_savgol(draw):
 def _st_interp(draw):
     w = 2 * draw(st.integers(1, 15)) + 1
     o = draw(st.integers(0, min(3, w - 1)))
-    extra = 0 if draw(st.integers(0, 9)) == 0 else draw(st.one_of(st.integers(1, 60), st.integers(1, 3)))
+    extra = 0 if draw(st.sampled_from(range(16))) == 7 else draw(st.one_of(st.integers(1, 60), st.integers(1, 3)))
     nan_mode = draw(st.sampled_from(["none", "random", "random", "blocks", "leading", "trailing", "both_ends"]))
     return {"fn": "savgol_interp", "w": w, "o": o, "n_valid": w + extra,
             "n_nan": 0 if nan_mode == "none" else draw(st.integers(1, 40)), "nan_mode": nan_mode,
             "kind": draw(st.sampled_from(["cubic", "cubic", "linear", "quadratic"])),
-            "const": draw(st.one_of(st.none(), _consts)), "default_args": draw(st.integers(0, 5)) == 0,
+            "const": draw(_consts) if draw(st.sampled_from([False, False, True])) else None, "default_args": draw(st.integers(0, 5)) == 0,
             "seed": draw(_seed)}
 
 
@@ -398,7 +401,7 @@ def _run_cadzow(case, ctx):
         e_out = _fro(out[:, nf:] - ref)
         e_in = _fro(noise)
         ratio = e_out / e_in
-        asserted = 3 * k <= full
+        asserted = 4 * k <= full
         ctx.label("cadzow_noise_asserted" if asserted else "cadzow_noise_measured")
         ctx.stat("cadzow_noise_ratio_asserted" if asserted else "cadzow_noise_ratio_other", ratio)
         if asserted:
@@ -485,16 +488,21 @@ def _run_derank(case, ctx):
               lambda: f"{m}x{n} matrix of rank {k}, requested rank {r}: output differs by {err:.3g} of max|input|")
     if k < full:
         sig = 10.0 ** (case["sig_exp"] / 10.0) * _fro(clean) / np.sqrt(clean.size)
-        noise = gen(rng, (m, n)) * sig
-        out2 = ctx.call("C20.derank", cz.derank, clean + noise, int(k))
-        if out2 is ctx.CRASH or not _is_array(out2, clean.shape):
-            return
-        s = np.linalg.svd(out2, compute_uv=False)
-        tail = float(s[k] / s[0]) if s[0] > 0 else 0.0
-        ctx.stat("derank_rank_tail", tail)
-        ctx.check(tail <= 1e-10, "C20.derank_rank",
-                  lambda: f"output of derank(T, {k}) has numerical rank > {k} (s[{k}]/s[0] = {tail:.3g})")
-        ratio = _fro(out2 - clean) / _fro(noise)
+        e_out = e_in = 0.0
+        for irep in range(NOISE_REP):
+            noise = gen(rng, (m, n)) * sig
+            out2 = ctx.call("C20.derank", cz.derank, clean + noise, int(k))
+            if out2 is ctx.CRASH or not _is_array(out2, clean.shape):
+                return
+            if irep == 0:
+                s = np.linalg.svd(out2, compute_uv=False)
+                tail = float(s[k] / s[0]) if s[0] > 0 else 0.0
+                ctx.stat("derank_rank_tail", tail)
+                ctx.check(tail <= 1e-10, "C20.derank_rank",
+                          lambda: f"output of derank(T, {k}) has numerical rank > {k} (s[{k}]/s[0] = {tail:.3g})")
+            e_out += _fro(out2 - clean) ** 2
+            e_in += _fro(noise) ** 2
+        ratio = float(np.sqrt(e_out / e_in))
         asserted = full >= 8 and 4 * k <= full
         ctx.stat("derank_noise_ratio_asserted" if asserted else "derank_noise_ratio_other", ratio)
         if asserted:
@@ -556,12 +564,15 @@ def _run_svd(case, ctx):
               lambda: f"{nc}x{ns} {case['dtype']} of rank {k}, requested rank {r}: output differs by {err:.3g} of max|input|")
     if k < full:
         sig = 10.0 ** (case["sig_exp"] / 10.0) * _fro(clean64) / np.sqrt(clean64.size)
-        noise = rng.standard_normal((nc, ns)) * sig
-        noisy = (clean64 + noise).astype(dtype)
-        out2 = ctx.call("C20.svd", vol.svd_denoise_npx, noisy, rank=int(k))
-        if out2 is ctx.CRASH or not _is_array(out2, clean.shape):
-            return
-        ratio = _fro(out2.astype(np.float64) - clean64) / _fro(noisy.astype(np.float64) - clean64)
+        e_out = e_in = 0.0
+        for _ in range(NOISE_REP):
+            noisy = (clean64 + rng.standard_normal((nc, ns)) * sig).astype(dtype)
+            out2 = ctx.call("C20.svd", vol.svd_denoise_npx, noisy, rank=int(k))
+            if out2 is ctx.CRASH or not _is_array(out2, clean.shape):
+                return
+            e_out += _fro(out2.astype(np.float64) - clean64) ** 2
+            e_in += _fro(noisy.astype(np.float64) - clean64) ** 2
+        ratio = float(np.sqrt(e_out / e_in))
         asserted = full >= 8 and 4 * k <= full
         ctx.stat("svd_noise_ratio_asserted" if asserted else "svd_noise_ratio_other", ratio)
         if asserted:
@@ -888,6 +899,8 @@ def _run_venn(case, ctx):
 
     chunk_one = (tmax // tb + 1) * tb          # single chunk, multiple of the bin
     chunks = [("one", chunk_one), ("mult", case["mult_a"] * tb), ("mult", case["mult_b"] * tb), ("any", case["chunk_any"])]
+    if tmax >= max(1, case["ntb"] * tb // 150):
+        chunks.append(("any", tmax))            # the last spike sits exactly on the boundary of the second chunk
     ref = None
     for what, chunk in chunks:
         nchunks = tmax // chunk + 1
